@@ -261,6 +261,12 @@ def run(tier, replay):
         # non-trivial: at least one connection existed when the signal was sent
         if "Sig_Send" in evs and any(e in evs[:evs.index("Sig_Send")] for e in ("Accept_Return", "Cli_Connect")):
             nontrivial.add(json.dumps([o["rt"], o["nw"], o["bind"], o["steps"]], sort_keys=True))
+        if o.get("hang"):
+            # method D: a step the model says is enabled (or a service the scenario was built to get) did not
+            # happen within 1 s + 4 s + 15 s
+            ctx.violation("%s scenario %s: the real code did not move where the model says it can: %s"
+                          % (o["group"], o["scenario"], o.get("problems")),
+                          {"kind": "c20-hang", "scenario": {k: o[k] for k in o if k != "events"}, "events": o["events"], "log": brief(o["events"])})
         if o["group"].startswith("replay"):
             for p in o.get("problems", []):
                 if p.startswith("gated step expected"):
